@@ -833,6 +833,9 @@ pub fn exec(line: &str) -> String {
         "pp" | "ppe" => exec_pp(&t),
         "triv" => exec_triv(&t),
         "opts" => exec_opts(&t),
+        "clone" => crate::cons_ops::exec_clone(&t),
+        "dclone" => crate::cons_ops::exec_dclone(&t),
+        "consmut" => crate::cons_ops::exec_consmut(&t),
         // oracle-only (serde types without a term in the model): evaluated in oracle.rs
         "serx" => "oracle-only".to_string(),
         #[cfg(feature = "full")]
